@@ -376,7 +376,11 @@ class Project:
         """
         # Some identifiers contain a dot themselves (OLDAP-2.0.1). A file that
         # is named exactly like an identifier has no file extension.
-        if not path.suffix or path.name in self.license_map:
+        if (
+            not path.suffix
+            or path.name in LICENSE_MAP
+            or path.name in EXCEPTION_MAP
+        ):
             raise SpdxIdentifierNotFoundError(f"{path} has no file extension")
         if path.stem in self.license_map:
             return path.stem
